@@ -911,7 +911,7 @@ func (c *Ctx) tileEpilogue(p *Parser, fi *FuncInfo, cursor ssa.Value) {
 			for _, f := range fi.factsOf(conds) {
 				if f.Op == LE && len(f.L.t) == 1 {
 					for a, co := range f.L.t {
-						if strings.HasPrefix(a, "len(blk.Sequences") && co == -1 && f.L.c >= 1 {
+						if strings.HasPrefix(a, "len("+blockParamName(fi.fn)+".Sequences") && co == -1 && f.L.c >= 1 {
 							hasSeq = true
 						}
 					}
@@ -1412,4 +1412,17 @@ func ruleBlockLen(c *Ctx) {
 		}
 	}
 	c.check(okInit && okStep, key, fn.Pos(), "n = len(Literals) + Σ MatchLen over all sequences", "Block.Len is not len(Literals) plus the sum of MatchLen")
+}
+
+
+// blockParamName: the name of the *Block parameter of a Parse-like function.
+func blockParamName(fn *ssa.Function) string {
+	for _, p := range fn.Params {
+		if pt, ok := p.Type().(*types.Pointer); ok {
+			if n, ok := pt.Elem().(*types.Named); ok && n.Obj().Name() == "Block" {
+				return p.Name()
+			}
+		}
+	}
+	return "blk"
 }
